@@ -2,3 +2,4 @@ SPECIFICATION Spec
 CONSTANT Thorough = TRUE
 CHECK_DEADLOCK FALSE
 INVARIANT Sanity
+INVARIANT Emit
